@@ -693,6 +693,50 @@ Section Model.
       if negb (t_version t =? 2) then None
       else decode_outputs info0 (combine (t_outs t) ws).
 
+    (** ** the raw HTLC-transaction entry point: [SimpleValidator::decode_and_validate_htlc_tx]
+        as called by [Channel::sign_htlc_tx] ([sign_counterparty_htlc_tx]; with the holder's keys
+        and the other delay in [s], [k] also [sign_holder_htlc_tx]).  Direction is read from the
+        redeemscript, commitment txid / output index / expiry from the supplied transaction, the
+        fee rate from its output value; the second-stage transaction is rebuilt from these with
+        LDK's [build_htlc_transaction], and the request goes on only if the BIP143 digest of the
+        supplied transaction equals the digest of the rebuilt one — a hard error, the policy
+        filter is not consulted.  What is returned (and signed) is the digest of the REBUILT
+        transaction. *)
+    Definition estimate_feerate (fee w : N) : N := N.min ((fee * 1000 + 999) / w) 4294967295.
+    (** vls-core keys the sighash type on [is_anchors] *)
+    Definition htlc_sighash_type_p1 : N :=
+      if anchors then SIGHASH_SINGLE_ANYONECANPAY else SIGHASH_ALL.
+    Definition htlc_side (redeem : bytes) : option bool :=
+      match parse_tmpl (t_offered_htlc anchors) redeem with
+      | Some _ => Some true
+      | None => match parse_tmpl (t_received_htlc anchors) redeem with
+                | Some _ => Some false
+                | None => None
+                end
+      end.
+    (** fee rate, direction, expiry and the digest to sign *)
+    Definition decode_htlc_tx (t : tx) (redeem : bytes) (amount : N) : option (N * bool * N * bytes) :=
+      match t_ins t, t_outs t with
+      | i0 :: _, o0 :: _ =>
+          match htlc_side redeem with
+          | None => None
+          | Some offered =>
+              let cltv := if offered then t_lock t else 0 in
+              if amount <? o_value o0 then None
+              else
+                let fee := amount - o_value o0 in
+                let feerate := if zf then 0 else estimate_feerate fee (if offered then 663 else 703) in
+                match htlc_tx (i_txid i0) feerate (i_vout i0) offered (mkHtlc amount [] cltv) with
+                | None => None
+                | Some re =>
+                    let d := sighash re 0 redeem amount htlc_sighash_type_p1 in
+                    if bytes_eqb d (sighash t 0 redeem amount htlc_sighash_type_p1)
+                    then Some (feerate, offered, cltv, d) else None
+                end
+          end
+      | _, _ => None
+      end.
+
     (** ** (iii) the two entry points *)
     Variable SK SIG : Type.
     Variable sign : SK -> bytes -> SIG.
@@ -727,6 +771,16 @@ Section Model.
           Ok (sign funding_key (commit_sighash (canon_tx c)),
               map (fun x => sign htlc_key (htlc_sighash x)) hts)
       end.
+    (** [Channel::sign_htlc_tx]: [accept_htlc] is [validate_htlc_tx] (fee-rate and expiry
+        policies, whatever the policy filter makes of them) *)
+    Variable accept_htlc : N -> bool -> N -> bool.
+    Definition sign_htlc_phase1 (t : tx) (redeem : bytes) (amount : N) : res SIG :=
+      match decode_htlc_tx t redeem amount with
+      | None => Refused
+      | Some (feerate, offered, cltv, d) =>
+          if accept_htlc feerate offered cltv then Ok (sign htlc_key d) else Refused
+      end.
+
     (** the handler-level requests: the same two entry points on the content the glue extracts *)
     Definition handle_sign_remote_commitment_tx2 (num feerate to_local to_remote : N) (l : list whtlc)
       : res (SIG * list SIG) :=
